@@ -6,16 +6,16 @@ HERE = os.path.dirname(os.path.dirname(os.path.abspath(__file__)))
 # id -> (level category, technique, level text, level note, design ref)
 CHECKS = {
  "C03": ("exploration", "exhaustive operator-coefficient grid + proptest laws against an independent hypergeometric oracle (exact u128 / ratio recurrence)",
-         "Every coefficient of the projection operator is compared with an independent hypergeometric oracle for all one-axis sizes up to 48 chromosomes (thorough 120) and all 2/3/4-axis shapes in a small grid with every admissible target (exhaustive in that bound); random spectra check the double-sum definition, mass, non-negativity, identity, two-step, commutation with marginalization and the error cases; sizes around 170/171, 1030 and up to 2400 (6000) chromosomes are sampled against a ratio-recurrence oracle; the CLI is checked at the printed precision.",
+         "Every coefficient of the projection operator is compared with an independent hypergeometric oracle for all one-axis sizes up to 48 chromosomes (thorough 120) and all 2/3/4-axis shapes in a small grid with every admissible target (exhaustive in that bound); random spectra check the double-sum definition, mass, non-negativity, identity, two-step, commutation with marginalization and the error cases; sizes around 170/171, 1030 and up to 2400 (6000) chromosomes, with targets at the edge of the band where C(n,m) overflows f64, are sampled against a ratio-recurrence oracle; the CLI is checked at the printed precision; `create | view --project-shape` is compared with `create --project-shape` on call sets without missing data.",
          "Trusted: the oracle (exact u128 binomials up to 100 chromosomes, normalised ratio recurrence beyond), stated tolerances (1e-14..1e-8 by size).", "DESIGN.md §3 C03"),
  "C04": ("exploration", "exhaustive shapes x axis subsets x orders + proptest against a naive nested-index sum; CLI -m/-M metamorphic",
          "All shapes with <=4 axes of length <=3 (thorough <=4) x every proper subset of axes x every naming order are enumerated; random spectra with up to 5 unequal axes; oracle = naive sum, order independence, joint == one-at-a-time, mass, errors; `view -m/-M` checked against the oracle and against each other byte for byte; create/marginalize relation on generated call sets.",
          "Trusted: the naive nested-index sum as definition; integers compared exactly.", "DESIGN.md §3 C04"),
  "C05": ("exploration", "exhaustive shapes x fills + proptest against the per-cell definition; algebraic laws (mass, idempotence, polarity)",
-         "Every shape with <=4 axes of length <=4 (thorough <=7) x 4 fills x 3 non-ramp value vectors is checked cell by cell against the definition in the statement (2s vs T), plus mass/idempotence/mirror laws; random shapes and values; `sfs fold` at the printed precision with all fill keywords.",
+         "Every shape with <=4 axes of length <=5 (thorough <=7) and every 5-axis shape of length <=3 x 4 fills x 3 non-ramp value vectors is checked cell by cell against the definition in the statement (2s vs T), plus mass/idempotence/mirror laws; random shapes and values; `sfs fold` at the printed precision with all fill keywords.",
          "Trusted: the statement's per-cell definition; one commutative addition compared bitwise.", "DESIGN.md §3 C05"),
  "C07": ("exploration", "proptest round trips (write -> auto-detecting read) over an f64 zoo; generated CLI pipelines; text->npy->text byte identity",
-         "Library round trips for 1..6 axes, special values, precision 0..17, both formats; producer/consumer pipelines through files, harness-fed pipes and real shell pipes; text->npy->text reproduces the text for <=15 significant digits.",
+         "Library round trips for 1..6 axes (sizes around powers of two up to 12 000 cells), special values, precision 0..17, both formats; producer/consumer pipelines (create, view, fold -> view, fold, stat) through files (also onto existing longer files), harness-fed pipes and real shell pipes; text->npy->text reproduces the text for <=15 significant digits.",
          "Trusted: Rust's correctly rounded f64 formatting/parsing.", "DESIGN.md §3 C07"),
  "C15": ("exploration", "header-length residue sweep + dtype/order/version matrix + proptest spelling variants; independent NPY validator; numpy differential",
          "Writer: shapes constructed to hit every residue of the unpadded header length modulo 64 (all 64 by construction, checked in the evidence) through an independent strict NPY 1.0 validator. Reader: the full dtype x byte-order x version matrix with boundary values, random files with header spelling variants, unsupported descriptors and Fortran order rejected. Real numpy is used as a second oracle in both directions.",
@@ -24,7 +24,7 @@ CHECKS = {
          "For each generated valid npy file (both writers, all dtypes/versions) every strict prefix and every extension by 1..16 bytes is fed to the reader, which must return an error; text files with token insertions/removals and shape edits; a sample of damaged files through view/fold/stat by path and stdin.",
          "Damage model: prefixes, short extensions, token edits, shape edits that change the product. Files and offsets are sampled by file, enumerated by offset.", "DESIGN.md §3 C16"),
  "C19": ("exploration", "exhaustive enumeration of shapes in a bound + proptest call histories against an odometer model",
-         "All shapes with 1..5 axes and lengths 1..4 (thorough 1..5) are enumerated completely: every index, every (axis, position) view, every out-of-range request, len() before and after every call, several calls past the first None; plus random call histories (next/len/size_hint/clone) on all four iterator types. Exhaustive inside the bound, sampled beyond it.",
+         "All shapes with 1..5 axes and lengths 1..5 (thorough 1..6), plus all shapes with 6..7 axes of lengths 1..2, are enumerated completely: every index, every (axis, position) view, every out-of-range request, len() before and after every call, several calls past the first None; plus random call histories (next/len/size_hint/clone) on all four iterator types. Exhaustive inside the bound, sampled beyond it.",
          "Trusted: the harness's odometer as definition of row-major order; catch_unwind to observe panics.", "DESIGN.md §3 C19"),
 }
 
